@@ -322,6 +322,9 @@ def finish(report: Report, prog: Program, tier: str, t0: float, explanation: str
         "checker_cmd": f"/verif/check {report.prop} --tier {tier}",
         "trusted_base": ["CPython ast", "mypy (type map, where used)", "frozen instance tables in /verif/pmverif/rules", "hand-built CFG /verif/pmverif/cfg.py"],
         "counters": report.counters,
+        "obligations_per_rule": {r: sum(1 for o in report.obligations if o.rule == r) for r in sorted({o.rule for o in report.obligations})},
+        "functions_with_obligations": sorted({o.where for o in report.obligations}),
+        "functions_analysed": len({o.where for o in report.obligations}),
         "modules_digest": prog.digest(),
         "repo_root": prog.root,
         "notes": report.notes[:40],
